@@ -36,7 +36,7 @@ func (h *H) resync(from, to *Node, plan func(i int) Plan) bool {
 	to.Proxy.SetPlan(plan)
 	ref := RemoteRecv(to)
 	ok := false
-	for i := 0; i < 200 && !ok; i++ {
+	for i := 0; i < 100 && !ok; i++ {
 		syncSeq++
 		s := syncSeq
 		from.Sys.Tell(ref, &XMsg{Kind: KSync, Sender: 0, Seq: s})
@@ -163,7 +163,8 @@ func (h *H) round(A, B *Node, cfg roundCfg, seed uint64) {
 	// a fresh connection per direction, set up under this round's chunking
 	cB0, cA0 := B.Proxy.NConns(), A.Proxy.NConns()
 	if !h.resync(A, B, plan) || (cfg.reverse && !h.resync(B, A, plan)) {
-		h.o.Monitor("c11-no-connection", nil, cfg.name+": no sync message got through a fresh connection within 30 s")
+		h.o.Monitor("c11-no-connection", nil, cfg.name+": no sync message got through a fresh connection within 15 s")
+		h.abort = true
 		return
 	}
 	_ = cB0
